@@ -61,7 +61,7 @@ def sh(cmd, timeout=900, cwd=None):
 
 def ensure_makefile():
     if not (COQ / 'Makefile').exists():
-        rc, out = sh('coq_makefile -f _CoqProject -o Makefile', cwd=COQ)
+        rc, out = sh('flock .build.lock coq_makefile -f _CoqProject -o Makefile', cwd=COQ)
         if rc:
             raise RuntimeError(out)
 
@@ -99,7 +99,7 @@ def build_proofs(prop, jobs=16):
     ensure_makefile()
     target = prop.props_file[:-2] + '.vo'
     (COQ / target).unlink(missing_ok=True)
-    cmd = f'timeout 1500 make -j{jobs} {target}'
+    cmd = f'flock .build.lock timeout 1500 make -j{jobs} {target}'
     t0 = time.time()
     rc, out = sh(cmd, timeout=1600, cwd=COQ)
     src = (COQ / prop.props_file).read_text()
